@@ -114,6 +114,10 @@ def run_case(case, ctx):
         codes = rng.integers(fmt.lo, fmt.hi + 1, size=12)
         xc = fixed.surrogate_inverse(fmt, fmt.offset + fmt.step * codes)
         x[-12:] = np.where(np.isfinite(xc), xc, 0.0)
+        # exact half-way ties (even and odd floor codes): inference must round them as the deterministic twin does
+        ties = rng.integers(fmt.lo, fmt.hi, size=12) + 0.5
+        xt_ = fixed.surrogate_inverse(fmt, fmt.offset + fmt.step * ties)
+        x[-24:-12] = np.where(np.isfinite(xt_), xt_, 0.0)
         x = x.astype(np.float32)
       elif fam == "po2":
         mn, mx = po2.exponent_interval(cls, kw["bits"], kw.get("max_value"))
@@ -141,6 +145,13 @@ def run_case(case, ctx):
             return
           outs.append((y.astype(np.float64), qenv.as_np(getattr(q, "scale", None))))
         real = []
+        # extreme but legal draws of a float32 uniform generator: 0 and 1 - 2^-23
+        for u_edge in (0.0, 1.0 - 2.0 ** -23):
+          stream.set_const(u_edge)
+          ok, y = ctx.call(dict(base, phase="train"), qenv.call, q, x)
+          if not ok:
+            return
+          real.append((y.astype(np.float64), qenv.as_np(getattr(q, "scale", None))))
         for sd in range(4 if ctx.tier == "quick" else 8):
           stream.set_real(case["seed"] * 100 + sd)
           ok, y = ctx.call(dict(base, phase="train"), qenv.call, q, x)
@@ -222,6 +233,10 @@ def train_oracle(ctx, case, base, x, outs, real, Kg):
                     "x=%r = %g steps, mean over %d equidistributed draws = %g steps (|bias| %g > %g)" % (
                         float(x.flat[i]), e.flat[i], Kg, mean.flat[i], bias.flat[i], tol), {"kw": kw})
     moved = is_code[None, ...] & (np.abs(ks - np.round(e)[None, ...]) > 1e-9) & ~half
+    if slack > 0:
+      # tanh/sigmoid surrogates are only known to `slack`: under the two extreme draws (u = 0, u = 1 - 2^-23) an
+      # input that is a code up to float error may legitimately land on either neighbour
+      moved[Kg:Kg + 2] = False
     if moved.any():
       j, i = np.argwhere(moved.reshape(len(allouts), -1))[0]
       ctx.violation(dict(base, kind="code_input_changed"),
